@@ -141,7 +141,7 @@ def r2(ctx):
 def r3(ctx):
     ctx.rule('C17.R3', 'Message::setPollPriority anchors m_pollOrder at g_lastPollOrder + priority whenever the message gets '
              'its first priority (flag computed from old priority == 0 and new priority > 0) or its order lies beyond that '
-             'value: the first-priority flag is tested and its true edge leads to the anchoring assignment', minimum=1)
+             'value: the first-priority flag is tested and its true edge leads to the anchoring assignment; otherwise the order is only pulled in', minimum=2)
     fb = ctx.fb
     fn = fb.fn('ebusd::Message::setPollPriority')
     ctx.touch(fn)
@@ -180,6 +180,16 @@ def r3(ctx):
            'assignment: %s' % (flag, ok))
     rk = expand(fn.nodes[anchor[0]]['rhs'])
     ctx.ob('C17.R3', fn, anchor[0], 'g_lastPollOrder' in rk and 'm_pollPriority' in rk and '+' in rk, 'anchor value', rk)
+    # apart from the first priority, the order is only pulled in: the assignment is taken when the current order lies beyond
+    # the very value that is assigned (a weaker test pushes a queued message back on every priority change)
+    raw = fn.key(fn.nodes[anchor[0]]['rhs'])
+    cands = {rk, raw}
+    alts = [(flag, True)]
+    for c_ in cands:
+        alts += [('(this.m_pollOrder <= %s)' % c_, False), ('(%s < this.m_pollOrder)' % c_, True)]
+    okc = fn.needs_one_of(anchor[0], alts)
+    ctx.ob('C17.R3', fn, anchor[0], okc, 'anchor only pulls the order in',
+           'taken only for a first priority or when m_pollOrder > %s: %s' % (rk, okc))
 
 
 def r4(ctx):
